@@ -240,7 +240,8 @@ def unpack_items(tier):
     if tier == "quick":
         seg = [("HarnessUnpackSeg", {"K": 1, "sName": 2, "sLink": 4}, 6), ("HarnessUnpackSeg", {"K": 2, "sName": 1, "sLink": 2}, 20),
                ("HarnessUnpackStep", {"K": 1, "sName": 2, "sLink": 1, "sPre": 2}, 12),
-               ("HarnessUnpackStep", {"K": 1, "sName": 2, "sLink": 1, "sPre": 1, "nDst": 6}, 16),
+               ("HarnessUnpackStep", {"K": 1, "sName": 2, "sLink": 1, "sPre": 1, "nDst": 8}, 20),
+               ("HarnessUnpackSafety", {"K": 1, "nName": 2, "nLink": 2, "nDst": 8}, 4),
                ("HarnessUnpackStep", {"K": 2, "sName": 1, "sLink": 1, "sPre": 1, "preDir": 0}, 20)]
     else:
         seg = [("HarnessUnpackSeg", {"K": 1, "sName": 4, "sLink": 5}, 16), ("HarnessUnpackSeg", {"K": 2, "sName": 3, "sLink": 4}, 16), ("HarnessUnpackSeg", {"K": 3, "sName": 2, "sLink": 3}, 16),
@@ -257,7 +258,7 @@ CHECKS["C01"] = {
     "explanation": "entry sequences x names x link targets are symbolic; the monitor is the model filesystem's mutation log compared segment-wise with dst; natively: before/after snapshot of the arena around dst",
     "anchors": ["(*github.com/hashicorp/go-slug.Packer).Unpack", "github.com/hashicorp/go-slug/internal/unpackinfo.NewUnpackInfo", "(*github.com/hashicorp/go-slug.Packer).validSymlink",
                 "(github.com/hashicorp/go-slug/internal/unpackinfo.UnpackInfo).RestoreInfo"],
-    "bounds": {"quick": "raw byte names: K=1 entry name 0..4 bytes, link target 0..5 bytes; K=2: 0..2 / 0..2; 6 type flags, mode 9 free bits. Segment-structured (names of 1 free byte, segments name/../././empty, optional leading slash): K=1 name <=2 segments, target <=4; K=2 name 1, target <=2. Inductive step (also with 6 spellings of dst: doubled slash, dot segments, trailing slash, via ..; and with K=2 single-segment entries, there without the extra directory): destination already holding one arbitrary symlink (target <=2 segments, absolute or not) and maybe a directory, then one entry (name <=2 segments, target <=1). dst=/w/d (absolute, clean) with sibling /w/d2, victim files and directory",
+    "bounds": {"quick": "raw byte names: K=1 entry name 0..4 bytes, link target 0..5 bytes; K=2: 0..2 / 0..2; 6 type flags, mode 9 free bits. Segment-structured (names of 1 free byte, segments name/../././empty, optional leading slash): K=1 name <=2 segments, target <=4; K=2 name 1, target <=2. Inductive step (also with 8 spellings of dst: doubled slash, dot segments, trailing slash, via .., by way of a relative or an absolute symlink; raw names 0..2 bytes with the same 8 spellings; and with K=2 single-segment entries, there without the extra directory): destination already holding one arbitrary symlink (target <=2 segments, absolute or not) and maybe a directory, then one entry (name <=2 segments, target <=1). dst=/w/d (absolute, clean) with sibling /w/d2, victim files and directory",
                "thorough": "raw: K=1: 0..7 / 0..7; K=2: 0..4 / 0..4; K=3: 0..2 / 0..2; segments: K=1 (4,5), K=2 (3,4), K=3 (2,3); step: K=1 (name 4, pre-link 4), K=2 (3,3)"},
     "assumptions": A_COMMON + ["A-tar: archive/tar + gzip deliver the headers written (names without NUL); byte-level stream corruption is outside", "vfs: root privileges, ELOOP after 8 hops, closed world /w"],
     "groups": [
